@@ -461,9 +461,11 @@ gen_hostile(int thorough)
 	/* every truncation (EOF at every offset) and every single-point mutation of every short base response */
 	for (i = 0; i < nwf; i++) {
 		struct hcase b = cases[i];	/* copy: the array may move */
-		if (b.resplen > 200) continue;
+		if (b.resplen > 600) continue;
 		if (!thorough && (i % 3) != 0) continue;
+		/* truncations also for the longer responses (interim responses with header lines followed by a cut-off final block) */
 		for (q = 0; q <= b.resplen; q++) hostile(b.resp, q, FK_END_EOF, b.limit, b.method, 32, "truncate case %zu at %zu", i, q);
+		if (b.resplen > 200) continue;
 		for (q = 0; q < b.resplen; q++) {
 			uint8_t t[260]; int r;
 			for (r = 0; r < 8; r++) { if (b.resp[q] == REPL[r]) continue; memcpy(t, b.resp, b.resplen); t[q] = REPL[r]; hostile(t, b.resplen, FK_END_EOF, b.limit, b.method, 32, "case %zu byte %zu -> 0x%02x", i, q, REPL[r]); }
@@ -490,6 +492,9 @@ gen_hostile(int thorough)
 		attack(nbuf, 100, FK_END_EOF, "chunk-line-without-eol", "HTTP/1.1 200 OK\r\nTransfer-Encoding: chunked\r\n\r\n%0300d", 5);
 		attack(nbuf, 100, FK_END_EOF, "no-colon-header", "HTTP/1.1 200 OK\r\nNoColonHere\r\n:\r\n: v\r\n\r\n");
 		attack(nbuf, 100, FK_END_EOF, "nul-in-header", "HTTP/1.1 200 OK\r\nA: b%cc\r\n\r\n", 1);
+		attack(nbuf, 100, FK_END_EOF, "1xx-with-headers-then-eof", "HTTP/1.1 100 Continue\r\nX: y\r\nZ: w\r\n\r\n");
+		attack(nbuf, 100, FK_END_EOF, "1xx-with-headers-then-partial", "HTTP/1.1 102 Processing\r\nX: y\r\n\r\nHTTP/1.1 200 OK\r\nConte");
+		attack(nbuf, 100, FK_END_ERR, "1xx-with-headers-then-reset", "HTTP/1.1 100 Continue\r\nX: y\r\n\r\nHTTP/1.1 200 OK\r\n");
 		attack(nbuf, 100, FK_END_EOF, "only-crlfs", "\r\n\r\n");
 		attack(nbuf, 100, FK_END_EOF, "crlf-crlf-then-status", "\r\n\r\nHTTP/1.1 200 OK\r\n\r\n");
 		/* bodies at limit-1 / limit / limit+1 for each framing, limit 0 */
